@@ -1,9 +1,9 @@
 SPECIFICATION GSpec
-CONSTANTS N = 2
-          OUTER = FALSE
+CONSTANTS N = 1
+          OUTER = TRUE
           AFTER = FALSE
           PRE = FALSE
-          INCL = FALSE
+          INCL = TRUE
 CHECK_DEADLOCK FALSE
 INVARIANT Emit
 INVARIANT CatchIdsUnique
